@@ -2,7 +2,7 @@
    non-vacuity theorems of Props/Properties_C11.v. *)
 From Coq Require Import NArith ZArith List Bool.
 From F8 Require Import Codec.Bytes Codec.Meta Codec.Extract Codec.Decode Codec.Encode Codec.Render Codec.Example
-                       C11.Copy C11.Spec_C11 C11.Hyp C11.Examples.
+                       C11.Copy C11.CopyOrig C11.Spec_C11 C11.Hyp C11.Examples.
 Import ListNotations.
 Local Open Scope N_scope.
 
@@ -31,15 +31,24 @@ Lemma c11_clone_unknown_refuted_lemma :
   exists c m, enc_of c m <> [] /\ clone_enc c m <> [] /\ clone_enc c m <> enc_of c m.
 Proof. exists ex_ctx, hb_unknown. repeat split; vm_compute; discriminate. Qed.
 
-(* move_legal dereferences _groups.find(fnum) == end(): a decoded message whose group count is 0 *)
-Lemma c11_move_missing_group_refuted_lemma :
+(* repaired in /repo 1eb9e00 (found by this check: move_legal dereferenced _groups.find(fnum) == end()):
+   a decoded message whose group count is 0 has no group object; it satisfies clone_ok, and moving
+   it now succeeds and gives a target that encodes like the source *)
+Lemma c11_move_zero_count_repaired_lemma :
   exists c bytes m md, decoded_nock c bytes = Some m /\ find_msg (c_msgs c) (m_type m) = Some md /\
-                       clone_ok c md m = true /\ move_msg c m = OOB site_groups_end.
+                       clone_ok c md m = true /\ map_find 73 (mb_groups (m_body m)) = None /\
+                       exists nb nh nt t k, move_msg c m = Ok (nb, nh, nt, t, k) /\
+                                            enc_of c t = enc_of c m /\ enc_of c m <> [].
 Proof.
   exists ex_ctx, list_zero_bytes.
   destruct (decoded_nock ex_ctx list_zero_bytes) as [m|] eqn:E; [|vm_compute in E; discriminate].
   exists m, md_list. split; [reflexivity|].
-  vm_compute in E. injection E as <-. repeat split; vm_compute; reflexivity.
+  vm_compute in E. injection E as <-. split; [vm_compute; reflexivity|]. split; [vm_compute; reflexivity|].
+  split; [vm_compute; reflexivity|].
+  match goal with |- exists nb nh nt t k, move_msg ?c ?m = _ /\ _ =>
+    destruct (move_msg c m) as [[[[[nb nh] nt] t] k]| | | |] eqn:Em; try (vm_compute in Em; discriminate) end.
+  exists nb, nh, nt, t, k. split; [reflexivity|]. vm_compute in Em. injection Em as <- <- <- <- <-.
+  split; [vm_compute; reflexivity|vm_compute; discriminate].
 Qed.
 
 (* the hypotheses hold of a message with two group elements, the second with two nested elements,
@@ -64,8 +73,46 @@ Lemma c11_nonvacuous_parts_lemma :
   count_fields (obj_of (m_body ex_list)) = 11.
 Proof. repeat split; vm_compute; reflexivity. Qed.
 
-(* copy_legal dereferences to->find_group(fnum) == nullptr: the deep-constructed target header does
-   not pre-create the group (FIX44 NoHops); the original encodes fine, its clone() crashes *)
-Lemma c11_clone_target_group_refuted_lemma :
-  exists c m, enc_of c m <> [] /\ clone c m = OOB site_target_group.
+(* repaired in /repo 198b3ea (found by this check: copy_legal dereferenced to->find_group(fnum) ==
+   nullptr): the deep-constructed target header does not pre-create the group (FIX44 NoHops); the
+   message satisfies clone_ok and its clone now encodes to the original's bytes *)
+Lemma c11_clone_missing_target_group_lemma :
+  clone_ok ex_ctx_h md_hb hb_hops = true /\
+  mb_groups (m_hdr (mk_message ex_ctx_h md_hb true)) = [] /\
+  clone_enc ex_ctx_h hb_hops = enc_of ex_ctx_h hb_hops /\ enc_of ex_ctx_h hb_hops <> [].
+Proof. repeat split; vm_compute; (reflexivity || discriminate). Qed.
+
+(* move_legal into a SHALLOW-constructed target (no group object for 73): the hypotheses hold, the
+   source's group object is added to the target (the branch taken when to->find_group() is null) *)
+Lemma c11_move_shallow_nonvacuous_lemma :
+  move_ok (m_body ex_list) (create_group ex_body false) = true /\
+  mb_groups (create_group ex_body false) = [] /\
+  exists t k, move_legal false (m_body ex_list) (create_group ex_body false) = Ok (3, t, k) /\
+              map_find 73 (mb_groups t) = map_find 73 (mb_groups (m_body ex_list)) /\
+              map_find 73 (mb_groups (m_body ex_list)) = Some [ex_order1; ex_order2] /\
+              mb_encode ex_ctx t = mb_encode ex_ctx (m_body ex_list).
+Proof.
+  split; [vm_compute; reflexivity|]. split; [reflexivity|].
+  destruct (move_legal false (m_body ex_list) (create_group ex_body false)) as [[[n t] k]| | | |] eqn:E;
+    try (vm_compute in E; discriminate).
+  exists t, k. vm_compute in E. injection E as <- <- <-. repeat split; vm_compute; reflexivity.
+Qed.
+
+(* ------------------------------------------------------------------ the code before the repairs *)
+(* ORIGINAL move_legal: _groups.find(fnum) == end() dereferenced for a decoded message whose group
+   count is 0 (and which satisfies every hypothesis of the clone theorem) *)
+Lemma c11_move_missing_group_orig_refuted_lemma :
+  exists c bytes m md, decoded_nock c bytes = Some m /\ find_msg (c_msgs c) (m_type m) = Some md /\
+                       clone_ok c md m = true /\ move_msg_orig c m = OOB site_groups_end.
+Proof.
+  exists ex_ctx, list_zero_bytes.
+  destruct (decoded_nock ex_ctx list_zero_bytes) as [m|] eqn:E; [|vm_compute in E; discriminate].
+  exists m, md_list. split; [reflexivity|].
+  vm_compute in E. injection E as <-. repeat split; vm_compute; reflexivity.
+Qed.
+
+(* ORIGINAL copy_legal: to->find_group(fnum) == nullptr dereferenced when the deep-constructed target
+   header does not pre-create the group; the original encodes fine, clone() crashed *)
+Lemma c11_clone_target_group_orig_refuted_lemma :
+  exists c m, enc_of c m <> [] /\ clone_orig c m = OOB site_target_group.
 Proof. exists ex_ctx_h, hb_hops. split; [vm_compute; discriminate|vm_compute; reflexivity]. Qed.
